@@ -412,11 +412,8 @@ fn bracket_arms(cx: &mut Ctx) {
     }
 }
 
-fn indentation_errors(cx: &mut Ctx) {
-    let rule = "C04.L2";
-    cx.rule(rule, "indentation rules: levels are compared with compare_strict (TabError when tabs and spaces disagree in direction, both branches); the dedent loop pops while Less, stops only on Equal and returns IndentationError on Greater");
-    cx.floor(rule, 3);
-    let Some(lx) = lr::load_lexer(cx, rule) else { return };
+/// Shared rule (C04.L2, C08.T1): compare_strict interpreted over the 3 x 3 partition of (tabs, spaces) directions.
+pub fn compare_strict_partition(cx: &mut Ctx, rule: &str, lx: &Src) {
     match lx.method("IndentationLevel", "compare_strict") {
         None => cx.anchor_missing(rule, "IndentationLevel::compare_strict"),
         Some(m) => {
@@ -460,6 +457,14 @@ fn indentation_errors(cx: &mut Ctx) {
             }
         }
     }
+}
+
+fn indentation_errors(cx: &mut Ctx) {
+    let rule = "C04.L2";
+    cx.rule(rule, "indentation rules: levels are compared with compare_strict (TabError when tabs and spaces disagree in direction, both branches); the dedent loop pops while Less, stops only on Equal and returns IndentationError on Greater");
+    cx.floor(rule, 3);
+    let Some(lx) = lr::load_lexer(cx, rule) else { return };
+    compare_strict_partition(cx, rule, &lx);
     match lr::lexer_method(&lx, "handle_indentations") {
         None => cx.anchor_missing(rule, "handle_indentations"),
         Some(m) => {
